@@ -192,6 +192,7 @@ where
     }
 }
 
+#[cfg_attr(metrics_verif, allow(missing_docs))]
 impl<'a, T> Cow<'a, [T]>
 where
     T: Clone,
@@ -205,6 +206,7 @@ where
     }
 }
 
+#[cfg_attr(metrics_verif, allow(missing_docs))]
 impl<'a> Cow<'a, str> {
     pub const fn const_str(val: &'a str) -> Self {
         // SAFETY: We can never create a null pointer by casting a reference to a pointer.
